@@ -17,6 +17,11 @@ use std::collections::{BTreeMap, BTreeSet, HashMap};
 
 pub struct C20;
 
+thread_local! {
+    /// alternates between rebuilds: decides the allocation order of the cells in the pointer-order part of tetris->raw
+    static REBUILD_PARITY: std::cell::Cell<bool> = std::cell::Cell::new(false);
+}
+
 pub const CONVS: [&str; 8] = ["raw->gds", "raw->proto", "raw->lef", "lef->raw->lef", "proto->raw->proto", "gds->raw", "raw->gds->raw", "tetris->raw"];
 
 #[derive(Clone, Debug)]
@@ -220,6 +225,15 @@ pub fn convert_once(case: &Case) -> Result<(Vec<(String, Vec<i16>)>, String), St
                     for po in p.ports.iter_mut() {
                         po.layers.sort_by(|a, b| a.layer_name.cmp(&b.layer_name));
                     }
+                    // a pin whose geometry sits on several layers is written as two PORTs (LEF allows several per pin)
+                    if p.ports.len() == 1 && p.ports[0].layers.len() >= 2 {
+                        let rest = p.ports[0].layers.split_off(1);
+                        let mut second = p.ports[0].clone();
+                        second.layers = rest;
+                        // the second port repeats the first layer as well, so both ports introduce layers
+                        second.layers.push(p.ports[0].layers[0].clone());
+                        p.ports.push(second);
+                    }
                 }
             }
             // raw units are nanometres here; LEF import scales microns by 1e4, values stay integral
@@ -274,9 +288,11 @@ pub fn convert_once(case: &Case) -> Result<(Vec<(String, Vec<i16>)>, String), St
             Ok((vec![], dump_raw(&lib)))
         }
         7 => {
-            // gridded layout -> raw: a two-metal cell with a cut, an assignment and an instance of a one-metal child,
-            // on one of the stacks of the C08 family (chosen by the case), converted by the real RawExporter
-            use crate::props::c08::{run_convert, CaseD};
+            // gridded layout -> raw. Part (a): a two-metal cell with cuts, an assignment and an instance on one of the
+            // stacks of the C08 family, converted by the real RawExporter. Part (b): a parent listed *before* the two
+            // different cells it instantiates, the cells being allocated in an order that alternates between rebuilds
+            // (so their heap addresses swap): the order of the exported cells must not follow pointer values.
+            use crate::props::c08::{build_stack, run_convert, CaseD};
             use crate::refmodel::tiling::{stack_family, CellIn, ChildD, CrossD, InstIn};
             let fam = stack_family();
             let si = [1usize, 9, 10][(case.port_layers + case.perm) % 3];
@@ -288,10 +304,49 @@ pub fn convert_once(case: &Case) -> Result<(Vec<(String, Vec<i16>)>, String), St
                 insts: if case.two_ports { vec![InstIn { child: 0, loc: (4, 0), rh: false, rv: false }] } else { vec![] },
             };
             let cd = CaseD { stack: si, cell, children: vec![ChildD { metals: 1, size: (2, 6) }] };
-            match run_convert(&fam[si], &cd)? {
-                Ok(cells) => Ok((vec![], format!("{cells:?}"))),
-                Err(e) => Err(format!("tetris->raw conversion failed on a well-formed cell: {e}")),
-            }
+            let a = match run_convert(&fam[si], &cd)? {
+                Ok(cells) => format!("{cells:?}"),
+                Err(e) => return Err(format!("tetris->raw conversion failed on a well-formed cell: {e}")),
+            };
+            let b = {
+                use layout21tetris as tetris;
+                use tetris::{cell::Cell, instance::Instance, layout::Layout, library::Library as TLib, outline::Outline};
+                let flip = REBUILD_PARITY.with(|p| {
+                    let v = p.get();
+                    p.set(!v);
+                    v
+                });
+                let mk = |n: &str, w: isize| Ptr::new(Cell::from(Layout::new(n, 0, Outline::rect(w, 6).unwrap())));
+                // allocation order alternates; names, listing order and instance order stay the same
+                let (alpha, beta) = if flip {
+                    let b = mk("beta", 4);
+                    let pad: Vec<Box<[u8; 64]>> = (0..3).map(|_| Box::new([0u8; 64])).collect();
+                    let a = mk("alpha", 2);
+                    drop(pad);
+                    (a, b)
+                } else {
+                    let a = mk("alpha", 2);
+                    let b = mk("beta", 4);
+                    (a, b)
+                };
+                let mut top = Layout::new("top", 0, Outline::rect(12, 6).unwrap());
+                top.instances.add(Instance { inst_name: "ia".into(), cell: alpha.clone(), loc: (0, 0).into(), reflect_horiz: false, reflect_vert: false });
+                top.instances.add(Instance { inst_name: "ib".into(), cell: beta.clone(), loc: (4, 0).into(), reflect_horiz: false, reflect_vert: false });
+                let mut lib = TLib::new("tlib");
+                lib.cells.push(Ptr::new(Cell::from(top)));
+                lib.cells.push(alpha);
+                lib.cells.push(beta);
+                let bs = build_stack(&fam[si])?;
+                match tetris::conv::raw::RawExporter::convert(lib, bs.stack) {
+                    Err(e) => return Err(format!("tetris->raw conversion of a parent-first library failed: {e:?}")),
+                    Ok(p) => {
+                        let rl = p.read().map_err(|_| "lock".to_string())?;
+                        let names: Vec<String> = rl.cells.iter().map(|c| c.read().map(|c| c.name.clone()).unwrap_or_default()).collect();
+                        format!("{names:?}")
+                    }
+                }
+            };
+            Ok((vec![], format!("{a}\n{b}")))
         }
         _ => {
             // raw -> gds -> raw
@@ -333,7 +388,7 @@ impl CaseDriver for C20 {
     }
     fn describe(&self, _tier: Tier) -> Describe {
         Describe {
-            rule: "inputs: raw libraries with 1-2 abstract cells whose 1-2 ports carry shapes on 1-3 layers and whose blockages sit on 0/2/3 layers (unordered maps with 1-3 keys, every insertion order), 1-2 shapes per layer, plus a layout cell with elements on 3 layers x 2 purposes, an annotation and a reflected+rotated instance; LEF / protobuf / GDSII inputs derived from them in a fixed order. Conversions: raw->GDSII (bytes, dates pinned), raw->protobuf (prost bytes), raw->LEF (serde_json), LEF->raw->LEF, protobuf->raw->protobuf, GDSII->raw, raw->GDSII->raw, gridded layout->raw (raw results as an order-preserving dump). Configurations: every input is rebuilt / re-imported with fresh HashMaps until each of the k! iteration orders of every map the exporter walks has been observed on the very map objects (minimum 8, cap 4096 rebuilds; coverage measured and reported as tags), plus fresh OS processes; conversions that expose no map (GDSII->raw) are repeated 32 times - unordered containers internal to a converter cannot be enumerated, only exercised. Two of the three layers may share a layer number. A state is (input, conversion); non-trivial = some map has >= 2 keys.".into(),
+            rule: "inputs: raw libraries with 1-2 abstract cells whose 1-2 ports carry shapes on 1-3 layers and whose blockages sit on 0/2/3 layers (unordered maps with 1-3 keys, every insertion order), 1-2 shapes per layer, plus a layout cell with elements on 3 layers x 2 purposes, an annotation and a reflected+rotated instance; LEF / protobuf / GDSII inputs derived from them in a fixed order. Conversions: raw->GDSII (bytes, dates pinned), raw->protobuf (prost bytes), raw->LEF (serde_json), LEF->raw->LEF, protobuf->raw->protobuf, GDSII->raw, raw->GDSII->raw, gridded layout->raw (raw results as an order-preserving dump). Configurations: every input is rebuilt / re-imported with fresh HashMaps until each of the k! iteration orders of every map the exporter walks has been observed on the very map objects (minimum 32, cap 4096 rebuilds; coverage measured and reported as tags), plus fresh OS processes; conversions that expose no map (GDSII->raw) are repeated 32 times - unordered containers internal to a converter cannot be enumerated, only exercised. Two of the three layers may share a layer number. A state is (input, conversion); non-trivial = some map has >= 2 keys.".into(),
             assumptions: vec!["an unordered map in the raw data model itself is rendered sorted (a map has no order); every ordered container must keep its order".into()],
             excluded: vec!["gridded layout -> raw is exercised on three stacks x a few cells only (the C08 alphabet is not re-enumerated here)".into()],
             technique: "exhaustive enumeration of hash-map iteration orders (observed on the real map objects) x inputs x conversions; outputs compared byte-for-byte within and across processes".into(),
@@ -405,7 +460,7 @@ impl CaseDriver for C20 {
             });
             // conversions that walk no map visible through the API may still use unordered containers
             // internally: those cannot be enumerated, only exercised (32 rebuilds + fresh processes)
-            let min_rebuilds = if seen.is_empty() { 32 } else { 8 };
+            let min_rebuilds = 32;
             if complete && rebuilds >= min_rebuilds {
                 break;
             }
